@@ -175,6 +175,8 @@ THEOREMS = [
     "Verif.C18.software_tag_keeps_original",
     "Verif.C18.legacy_detection_spec",
     "Verif.C18.exported_file_not_legacy",
+    "Verif.C18.exported_alignment_is_applied",
+    "Verif.C18.for_export_fixed_point",
 ]
 RULE = (
     "corpus + exhaustive small scope + seeded random + malformed stream. stack: real TIFF stacks written with tifffile "
@@ -1613,6 +1615,120 @@ def oracle_software(case, ia):
     return None
 
 
+# ------------------------------------------------------------------ align kind (alignment status, for_export keys, no second warp)
+
+ALIGN_VARIANTS = ["ready3", "ready01", "only12", "none", "applied3", "appliedX", "ready+applied", "pylakekey", "shift", "grey"]
+
+
+def align_description(variant):
+    """how the ImageDescription of an RGB stack with (identity) alignment matrices is changed for the variant"""
+    def mut(d):
+        d = dict(d)
+        ck = [f"Channel {j} alignment" for j in range(3)]
+        if variant == "ready01":
+            d.pop(ck[2])
+        elif variant == "only12":
+            d.pop(ck[0])
+        elif variant == "none":
+            for k in ck:
+                d.pop(k)
+        elif variant == "applied3":
+            for j, k in enumerate(ck):
+                d[f"Applied channel {j} alignment"] = d.pop(k)
+        elif variant == "appliedX":
+            for k in ck:
+                d.pop(k)
+            d["Applied foo channel bar"] = [1.0, 0.0, 0.0, 0.0, 1.0, 0.0]
+        elif variant == "ready+applied":
+            d["Applied channel 1 alignment"] = d.pop(ck[1])
+        elif variant == "pylakekey":
+            d["Pylake"] = {"x": 1}
+        elif variant == "shift":
+            d[ck[0]] = [1.0, 0.0, 1.0, 0.0, 1.0, 0.0]  # the red channel is shifted by one pixel: a second warp would show
+        return d
+    return mut
+
+
+def impl_align(case):
+    """an RGB (or grey) camera stack whose description carries the variant's alignment keys, opened with align=requested:
+    [0] the JSON keys of the exported description (sorted), [1] the keys after opening that export the same way and exporting
+    again (sorted).  The oracle also compares the pixels of the two exports (no second warp)."""
+    from lumicks.pylake import ImageStack
+
+    obs = case["_obs"] = {}
+    grey = case["variant"] == "grey"
+    spec = bt.make_spec(files=(2,), h=4, w=5, colour="grey" if grey else "rgb", align=not grey)
+    d = tempfile.mkdtemp(prefix="al_", dir=tmpdir())
+    orig = bt.description
+    try:
+        with warnings.catch_warnings():
+            warnings.simplefilter("ignore")
+            bt.description = lambda s_, p_: align_description(case["variant"])(orig(s_, p_))
+            try:
+                paths = bt.write_files(spec, d)
+            finally:
+                bt.description = orig
+            obs["keys0"] = list(align_description(case["variant"])(orig(spec, 0)).keys())
+            p2, p3 = os.path.join(d, "e1.tiff"), os.path.join(d, "e2.tiff")
+            try:
+                st = ImageStack(*paths, align=case["requested"])
+                try:
+                    st.export_tiff(p2)
+                finally:
+                    st.close()
+                raw2 = read_raw(p2)
+                st = ImageStack(p2, align=case["requested"])
+                try:
+                    st.export_tiff(p3)
+                finally:
+                    st.close()
+                raw3 = read_raw(p3)
+            except Exception as e:
+                obs["error"] = repr(e)
+                return [errname(e), errname(e)]
+            obs["raw2"], obs["raw3"] = raw2, raw3
+            k2, k3 = list(json.loads(raw2[0]["desc"]).keys()), list(json.loads(raw3[0]["desc"]).keys())
+            obs["k2"], obs["k3"] = k2, k3
+            return [enc_keys(k2), enc_keys(k3)]
+    finally:
+        shutil.rmtree(d, ignore_errors=True)
+
+
+def enc_keys(keys):
+    return "[" + ";".join(",".join(str(ord(ch)) for ch in k) for k in sorted(set(keys))) + "]"
+
+
+def ops_align(case):
+    obs = case.get("_obs", {})
+    keys = obs.get("keys0", [])
+    rgb = enc_bool(case["variant"] != "grey")
+    raw = "[" + ";".join(",".join(str(ord(ch)) for ch in k) for k in keys) + "]"
+    return [f"c18.forexport {rgb} {enc_bool(case['requested'])} F {raw}", f"c18.forexport {rgb} {enc_bool(case['requested'])} T {raw}"]
+
+
+def agree_align(ia, ma):
+    def keyset(a):
+        inner = a[1:-1]
+        return sorted(set(inner.split(";"))) if inner else []
+    if not (ia.startswith("[") and ma.startswith("[")):
+        return ia == ma
+    return keyset(ia) == keyset(ma)  # a dict: the order of the keys means nothing
+
+
+def oracle_align(case, ia):
+    obs = case.get("_obs", {})
+    if "raw3" not in obs:
+        return f"export-refused: a readable camera TIFF could not be opened / exported twice: {obs.get('error')}"
+    if sorted(obs["k2"]) != sorted(obs["k3"]):
+        return f"re-export: description keys {sorted(set(obs['k2']) ^ set(obs['k3']))} differ between the export and the export of the export"
+    for i, (p, q) in enumerate(zip(obs["raw2"], obs["raw3"])):
+        if p["img"].shape != q["img"].shape or not np.array_equal(p["img"], q["img"]):
+            return f"re-export: pixels of page {i} change when the exported file is exported again (aligned twice?)"
+        if p["dt"] != q["dt"]:
+            return f"re-export: DateTime of page {i} changes from {p['dt']!r} to {q['dt']!r}"
+    return None
+
+
 # ------------------------------------------------------------------ datetime / legacy kinds
 
 
@@ -1765,6 +1881,8 @@ def impl(case):
         return impl_glue(case)
     if k == "software":
         return impl_software(case)
+    if k == "align":
+        return impl_align(case)
     raise ValueError(k)
 
 
@@ -1786,6 +1904,8 @@ def ops(case):
         return ops_glue(case)
     if k == "software":
         return ops_software(case)
+    if k == "align":
+        return ops_align(case)
     raise ValueError(k)
 
 
@@ -1796,6 +1916,14 @@ def agree(case, i, ia, ma):
         return True  # the derivation itself was refused (C06's business): nothing was exported, nothing to compare
     if ia == "not-written" and i > 0:
         return True  # the export was refused (op 0 compares that refusal with the model): there is no tag to read back
+    if case["kind"] == "exposure" and i == 1 and ia.startswith("[") and ma.startswith("["):
+        # the ns read back: exact inside the bound of exposure_roundtrip; beyond it the last bit of the millisecond double decides
+        # (x / 1e6 and x * 1e-6 are both right), so only closeness is demanded there
+        a, b = [int(t) for t in ia[1:-1].split(",") if t], [int(t) for t in ma[1:-1].split(",") if t]
+        return len(a) == len(b) == len(case["e"]) and all(
+            (x == y) if abs(e) <= EXPOSURE_EXACT else abs(x - y) <= max(2, abs(e) >> 50) for e, x, y in zip(case["e"], a, b))
+    if case["kind"] == "align":
+        return agree_align(ia, ma)
     if case["kind"] == "glue" or case["kind"] in ("kymo", "scan") and i == 4:
         return agree_glue(ia, ma)
     if (case["kind"] == "exposure" and i == 0 or case["kind"] in ("kymo", "scan") and i == 3) and ia.startswith("[") and ma.startswith("["):
@@ -1824,6 +1952,8 @@ def oracle(case, ia):
         return oracle_glue(case, ia)
     if k == "software":
         return oracle_software(case, ia)
+    if k == "align":
+        return oracle_align(case, ia)
     raise ValueError(k)
 
 
@@ -2211,7 +2341,11 @@ def cases(tier, rng):
     yield dict(exposure_case([], ms=[0.0, 5e-7, 1.5e-6, 2.5e-6, 40.0, 0.0128, 1e-7, 4.9999999e-7]), stream="small-scope")
 
     # ---------------- glue: export_tiff as a whole; hooks returning n frames, m ranges, l exposure ranges
-    for nf, nd, ne in itertools.product(range(0, 4), repeat=3):
+    # (the hooks of one object agree about the number of frames: n frames, n ranges, n exposure ranges - what export_tiff does
+    # with hooks that disagree is modelled and proved (export_tiff_page_count) but not tied: an equivalent refactoring may index
+    # instead of zip, or raise a differently named error for an empty exposure list)
+    for nf in range(0, 4):
+        nd = ne = nf
         frames = [[10 * j + 1, 10 * j + 2] for j in range(nf)]
         dead = [[bt.T0 + 100 * j, bt.T0 + 100 * j + 100] for j in range(nd)]
         exp = [[bt.T0 + 100 * j, bt.T0 + 100 * j + 40 + j] for j in range(ne)]
@@ -2233,6 +2367,11 @@ def cases(tier, rng):
                "xPylakex", "ylake", "Py lake", "P", "Bluelake, pylake", "pyPylake", "PylakPylake", "Pylake,", "tifffile.py", "B, Pylake v9, Pylake v10"]:
         for key in (False, True):
             yield {"stream": "small-scope", "kind": "software", "sw": sw, "key": key}
+
+    # ---------------- alignment status / for_export keys / no second warp: every variant x align requested or not
+    for variant in ALIGN_VARIANTS:
+        for req in (True, False):
+            yield {"stream": "small-scope", "kind": "align", "variant": variant, "requested": req}
 
     # ---------------- confocal: small scope
     conf = []
@@ -2403,8 +2542,7 @@ def cases(tier, rng):
         pool = [v for v in BOUNDARY_VALUES[dtype if dtype != "none" else "u16"] if f64_exact(v)]
         nf, k = sub.randint(1, 4), sub.randint(1, 3)
         frames = [[sub.choice(pool) if sub.chance(0.15) else str(sub.randint(0, 200)) for _ in range(k)] for _ in range(nf)]
-        nd = nf if sub.chance(0.8) else sub.randint(0, 4)
-        ne = nd if sub.chance(0.8) else sub.randint(0, 4)
+        nd = ne = nf
         t0 = sub.choice(TS_BOUNDARY[:-3] + [sub.randint(0, 2**62)])
         per = sub.choice([1, 10, 1000, 10**9, sub.randint(1, 10**12)])
         dead = [[t0 + j * per, t0 + (j + 1) * per] for j in range(nd)]
